@@ -395,6 +395,10 @@ async fn acceptor<L: Lis>(ctx: Rc<Ctx>, st: Rc<State>, p: AcceptProg, l: L) {
                     }
                 }
                 multi_before = true;
+                // triage aid: let an in-flight cancellation of the dropped stream finish before re-arming
+                if let Some(n) = std::env::var("C14_DROP_SETTLE").ok().and_then(|v| v.parse::<usize>().ok()) {
+                    yields(&ctx, n).await;
+                }
             }
         }
     }
